@@ -1,5 +1,9 @@
 import SF.Props.C11
 #print axioms SF.C11.superSmoother_eq
+#print axioms SF.C11.laguerreFilter_eq
+#print axioms SF.C11.laguerre_ladder_step
+#print axioms SF.C11.roofing_eq
+#print axioms SF.C11.roofing_hp_step
 #print axioms SF.C11.smoothSeq_step
 #print axioms SF.C11.prev_input
 #print axioms SF.C11.coefficients
